@@ -21,7 +21,14 @@ static size_t make_source(int kind, size_t n, u8* p) {
     case 0: fill_text(p, n, 3); break;
     case 1: for (size_t i = 0; i < n; i++) p[i] = (u8)("abcdefgh"[i & 7]); for (size_t i = 50; i < n; i += 211) p[i] = (u8)(i >> 3); break;     /* repcode heavy */
     case 2: fill_noise(p, n, 5); for (size_t i = 300; i + 40 < n; i += 700) memcpy(p + i, p + i - 257, 40); break;                          /* sparse matches */
-    default: fill_text(p, n, 9); for (size_t i = 1000; i + 600 < n; i += 1500) memcpy(p + i, p + i - 999, 600); break;                      /* long matches crossing edges */
+    case 3: fill_text(p, n, 9); for (size_t i = 1000; i + 600 < n; i += 1500) memcpy(p + i, p + i - 999, 600); break;                      /* long matches crossing edges */
+    default: {   /* kinds 4, 5: every other block-size stretch is a run of one byte (a block the compressor may emit as RLE), between stretches that keep
+                  * re-using the same few offsets (kind 4: period 8 with sparse changes; kind 5: text with copies at distance 257) */
+        size_t B = n > (200u << 10) ? (128u << 10) : 1024;
+        if (kind == 4) { for (size_t i = 0; i < n; i++) p[i] = (u8)("abcdefgh"[i & 7]); for (size_t i = 50; i < n; i += 211) p[i] = (u8)(i >> 3); }
+        else { fill_text(p, n, 13); for (size_t i = 300; i + 40 < n; i += 400) memcpy(p + i, p + i - 257, 40); }
+        for (size_t b = 1; b * B < n; b += 2) { size_t e = (b + 1) * B > n ? n : (b + 1) * B; memset(p + b * B, b & 2 ? 'Q' : 0, e - b * B); }
+        break; }
     }
     return n;
 }
@@ -64,7 +71,7 @@ static size_t producer_fn(void* st, ZSTD_Sequence* out, size_t cap, const void* 
 }
 
 static void body(void) {
-    int kind = vx_choose(4), delim = vx_choose(2), repSearch = vx_choose(3), dictMode = vx_choose(3), minMatch = 3 + vx_choose(5), variant = vx_choose(7);
+    int kind = vx_choose(6), delim = vx_choose(2), repSearch = vx_choose(3), dictMode = vx_choose(3), minMatch = 3 + vx_choose(5), variant = vx_choose(7);
     size_t B = g_big ? (128u << 10) : 1024;              /* block size in force */
     size_t n = g_big ? (2 * B + 4321) : (4 * B + 333);
     size_t W = g_big ? (1u << 18) : 2048; int wlog = g_big ? 18 : 11;
